@@ -64,6 +64,7 @@ func syncScenario(w *World, p *Plan, rec *Record) {
 	if fault != "" && fault != "none" {
 		w.Net.StreamFault = &StreamFault{Kind: fault, Index: r.Intn(size + 1)}
 	}
+	sf := w.Net.StreamFault // the stream consumes (and clears) it
 	j := w.addNode()
 	if busySource {
 		// the source keeps receiving proposals while it streams
@@ -96,7 +97,13 @@ func syncScenario(w *World, p *Plan, rec *Record) {
 		// all-or-nothing
 		w.probe("c14-corrupted-stream")
 		if js.Loaded || j.Book.DagLoaded() {
-			w.violate("C14", "all-or-nothing", "corrupted-stream-left-node-loaded:"+fault, j.Idx, "join error: %v", err)
+			cause := "corrupted-stream-left-node-loaded:" + fault
+			if fault == "cut" && sf != nil && sf.closedPrefix {
+				// what arrived before the break is a well-formed smaller DAG: the loader cannot tell
+				// an interrupted stream from a complete one (known finding)
+				cause = "interrupted-stream-with-well-formed-prefix-loaded-as-complete"
+			}
+			w.violate("C14", "all-or-nothing", cause, j.Idx, "join error: %v; joiner holds %d of the peer's %d vertices", err, len(js.Live), len(ss.Live))
 		}
 		t, terr := transaction.New("pay", spice.Melange{SupplementaryCurrency: 1}, nil, w.WAddr[1], w.Wallets[0])
 		if terr == nil && !j.Book.DagLoaded() {
